@@ -1290,6 +1290,10 @@ Hread(int32 access_id, int32 length, void *data)
     if (length == 0 || length + access_rec->posn > data_len)
         length = data_len - access_rec->posn;
 
+    /* positioned beyond the end of the element (an appendable AID may seek there) */
+    if (length < 0)
+        HGOTO_ERROR(DFE_BADSEEK, FAIL);
+
     /* read in data */
     if (HP_read(file_rec, data, length) == FAIL)
         HGOTO_ERROR(DFE_READERROR, FAIL);
